@@ -3,7 +3,7 @@
 # Confirms in a scratch worktree (outside /repo and /verif): demo passes on the clean tree, fails with the patch, and the
 # unedited test-suite passes with the patch.  Prints CONFIRMED or the reason it is not.
 set -u
-M=$1; ORIG=$2; WT=/tmp/wt_confirm
+M=$1; ORIG=$2; WT=${WT:-/tmp/wt_confirm}; TAG=$(basename $WT)
 if [ ! -d $WT ]; then
   git -C /repo worktree add -f $WT HEAD > /dev/null 2>&1
   mkdir -p $WT/external; [ -d $WT/external/googletest/googletest ] || cp -r /repo/external/googletest $WT/external/ 2>/dev/null
@@ -13,19 +13,19 @@ fi
 git -C $WT checkout -q -- . ; git -C $WT checkout -q --detach $(git -C /repo rev-parse HEAD) 2>/dev/null
 CMD=$(grep -v '^\s*$' $M/build.txt | grep -E "g\+\+|clang" | head -1 | sed "s#$ORIG#$WT#g")
 [ -z "$CMD" ] && { echo "no build command"; exit 2; }
-cp $M/demo.cpp /tmp/confirm_demo.cpp
-CMD=$(echo "$CMD" | sed -E "s#[^ ]*demo\.cpp#/tmp/confirm_demo.cpp#; s#-o +[^ ]+#-o /tmp/confirm_demo#")
-echo "$CMD" | grep -q -- "-o " || CMD="$CMD -o /tmp/confirm_demo"
-eval "$CMD" > /tmp/confirm_build.log 2>&1 || { echo "demo does not build on the clean tree"; tail -5 /tmp/confirm_build.log; exit 2; }
-/tmp/confirm_demo > /tmp/confirm_run.log 2>&1; r0=$?
-[ $r0 -eq 0 ] || { echo "demo FAILS on the clean tree (exit $r0)"; tail -3 /tmp/confirm_run.log; exit 2; }
+cp $M/demo.cpp /tmp/confirm_demo_$TAG.cpp
+CMD=$(echo "$CMD" | sed -E "s#[^ ]*demo\.cpp#/tmp/confirm_demo_$TAG.cpp#; s#-o +[^ ]+#-o /tmp/confirm_demo_$TAG#")
+echo "$CMD" | grep -q -- "-o " || CMD="$CMD -o /tmp/confirm_demo_$TAG"
+eval "$CMD" > /tmp/confirm_build_$TAG.log 2>&1 || { echo "demo does not build on the clean tree"; tail -5 /tmp/confirm_build_$TAG.log; exit 2; }
+/tmp/confirm_demo_$TAG > /tmp/confirm_run_$TAG.log 2>&1; r0=$?
+[ $r0 -eq 0 ] || { echo "demo FAILS on the clean tree (exit $r0)"; tail -3 /tmp/confirm_run_$TAG.log; exit 2; }
 git -C $WT apply $M/patch.diff || { echo "patch does not apply"; exit 2; }
-eval "$CMD" > /tmp/confirm_build.log 2>&1 || { echo "demo does not build with the patch"; git -C $WT checkout -q -- .; exit 2; }
-/tmp/confirm_demo > /tmp/confirm_run.log 2>&1; r1=$?
+eval "$CMD" > /tmp/confirm_build_$TAG.log 2>&1 || { echo "demo does not build with the patch"; git -C $WT checkout -q -- .; exit 2; }
+/tmp/confirm_demo_$TAG > /tmp/confirm_run_$TAG.log 2>&1; r1=$?
 [ $r1 -ne 0 ] || { echo "demo PASSES with the patch"; git -C $WT checkout -q -- .; exit 2; }
 cmake --build $WT/_build -j8 > $WT/_build.log 2>&1 || { echo "library/test build fails with the patch"; tail -5 $WT/_build.log; git -C $WT checkout -q -- .; exit 2; }
 $WT/_build/tests/AVEL_TESTS > $WT/_tests.log 2>&1; rt=$?
-np=$(grep -c "^\[       OK \]" $WT/_tests.log)
+np=$(grep -oE "PASSED +\] [0-9]+ tests" $WT/_tests.log | grep -oE "[0-9]+" | tail -1)
 git -C $WT checkout -q -- .
 [ $rt -eq 0 ] || { echo "test-suite FAILS with the patch"; grep -E "FAILED|PASSED" $WT/_tests.log | tail -3; exit 2; }
 echo "CONFIRMED demo clean=pass mutated=exit$r1 tests=$np passed"
